@@ -30,6 +30,9 @@ import Duckling.Lemmas.TabSound
                                   no line invented, duplicated or moved before an earlier one), and EVERY source line that is not blank and
                                   is not a triple-quote line (after its indentation) is among them — no code line is silently dropped,
                                   whatever the indentation looks like, verbatim regions included;
+  * `C03_line_text_kept`         and the TEXT of every line of the tree is the text of the source line with that number from some position on,
+                                  everything before that position being white space: the parser never alters, joins or splits a line's text
+                                  (ANY input; composition of the one-unit-per-level stripping through the recursion);
   * `C03_text_roundtrip`         the same for `Compiler.compile(text)`: numbers are the 1-based positions in the text.
   The verbatim (triple-quote) form and the exact error for every ill-indented text (beyond the two rejection
   theorems above) are validated by the correspondence.
@@ -122,5 +125,11 @@ example : keepLine ⟨"    STRING a".toList, 2⟩ ∧ ¬ keepLine ⟨"   ".toLis
   refine ⟨⟨by decide, by decide⟩, fun h => ?_, fun h => ?_⟩
   · exact absurd h.1 (by decide)
   · exact absurd h.2 (by decide)
+
+/-- **the text of a line is never altered**: every line of the tree is the source line with that number, minus leading white space -/
+theorem C03_line_text_kept (lines : List Str) (nodes : List Node) (h : parseLines lines = .ok nodes) :
+    ∀ l' ∈ flatL nodes, ∃ l ∈ numberLines lines, l.num = l'.num ∧
+      ∃ k, l'.content = l.content.drop k ∧ ∀ c ∈ l.content.take k, isSpace c = true :=
+  parseLines_content lines nodes h
 
 end Duckling.Props.C03
